@@ -390,6 +390,26 @@ def pubkey_variants(cv, pub):
 
 
 VARIANTS = ((False, b""), (True, b""), (False, b"c"), (True, b"c"), (False, asc(255, 1)), (True, asc(255, 1)))
+# thorough tier: more context lengths (2, 127, 128, 254 octets; the length travels in one octet of dom2 / dom4); the first six
+# entries are VARIANTS, so a variant index means the same in both tiers
+VARIANTS_T = VARIANTS + tuple((ph, asc(n, 1)) for n in (2, 127, 128, 254) for ph in (False, True))
+
+
+def octet_sweep(cv, pub, sig, which):
+    """(tag, public key, signature): ONE octet of the genuine signature or of the public key replaced by every other value
+    (thorough tier).  S-top is the highest octet of S that the order reaches (Ed448: octet 55; octet 56 must be zero)"""
+    nb = NB[cv]
+    where = {"R-first": ("sig", 0), "R-last": ("sig", nb - 1), "S-first": ("sig", nb), "S-top": ("sig", 2 * nb - (2 if cv == "ed448" else 1)),
+             "S-last": ("sig", 2 * nb - 1), "A-first": ("pub", 0), "A-last": ("pub", nb - 1)}
+    what, off = where[which]
+    base = sig if what == "sig" else pub
+    for v in range(256):
+        if v != base[off]:
+            c = base[:off] + bytes([v]) + base[off + 1:]
+            yield "octet/%s@%02x" % (which, v), (pub if what == "sig" else c), (c if what == "sig" else sig)
+
+
+SWEEPS = ("R-first", "R-last", "S-first", "S-top", "S-last", "A-first", "A-last")
 
 
 # ---------------------------------------------------------------------------
@@ -414,11 +434,12 @@ def worker(shards):
         if kind == "sign":
             # ("sign", curve, variant index, message names)
             _, _, vi, mnames = sh
-            ph, ctx = VARIANTS[vi]
+            ph, ctx = VARIANTS_T[vi]
             for mn in mnames:
-                msg = msgs[mn]
+                msg = B.message(mn, msgs)
                 sig = ed_sign_case(kd, ph, ctx, msg, acc)
                 acc.seen("sign_cfgs", (cv, ph, len(ctx), mn))
+                acc.seen("ed_ctx_lens", (cv, ph, len(ctx)))
                 if sig is None:
                     continue
                 T = lambda tag, *a, **kw: _tally(acc, cv, ph, ctx, tag, *ed_verify_case(cv, *a, **kw))  # noqa
@@ -433,8 +454,9 @@ def worker(shards):
         elif kind == "genuine":
             # ("genuine", curve, variant index, message, flips|None)
             _, _, vi, mn, flips = sh
-            ph, ctx = VARIANTS[vi]
-            msg = msgs[mn]
+            ph, ctx = VARIANTS_T[vi]
+            msg = B.message(mn, msgs)
+            acc.seen("ed_genuine_cfgs", (cv, ph, len(ctx), mn, bool(flips)))
             sig = ed_sign_case(kd, ph, ctx, msg, acc)        # the library's own signature (compared with the reference)
             if sig is None:
                 continue
@@ -452,9 +474,11 @@ def worker(shards):
                     "bit_flip_slice": list(flips) if flips else None, "candidates": n}
         elif kind == "crafted":
             # ("crafted", curve, variant index, shape 'star'|'product', A-slice part, nparts)
-            _, _, vi, shape, part, nparts = sh
-            ph, ctx = VARIANTS[vi]
-            msg = msgs["asc33"]
+            _, _, vi, shape, part, nparts = sh[:6]
+            ph, ctx = VARIANTS_T[vi]
+            mn = sh[6] if len(sh) > 6 else "asc33"          # optional 7th element: the message (thorough tier)
+            msg = B.message(mn, msgs)
+            acc.seen("ed_crafted_cfgs", (cv, ph, len(ctx), mn))
             pts = small_order_points(cv)
             encs = []
             for pi, P in enumerate(pts):
@@ -481,6 +505,23 @@ def worker(shards):
                     n += 1
             last = {"part": "eddsa-crafted-small-order", "curve": cv, "variant": vname(ph, ctx), "shape": shape,
                     "A_encodings": len(encs), "pairs": len(pairs), "cases_in_shard": n}
+        elif kind == "edsweep":
+            # ("edsweep", curve, variant index, message, position names)
+            _, _, vi, mn, which = sh
+            ph, ctx = VARIANTS_T[vi]
+            msg = B.message(mn, msgs)
+            sig = ed_sign_case(kd, ph, ctx, msg, acc)
+            if sig is None:
+                continue
+            n = 0
+            for name in which:
+                for tag, pub, cand in octet_sweep(cv, kd["pub"], sig, name):
+                    _tally(acc, cv, ph, ctx, tag, *ed_verify_case(cv, pub, ph, ctx, msg, cand, tag, acc))
+                    acc.count("octet_sweep_cases")
+                    n += 1
+                acc.seen("ed_sweep_cfgs", (cv, ph, len(ctx), mn, name))
+            last = {"part": "eddsa-octet-sweep", "curve": cv, "variant": vname(ph, ctx), "message": mn, "positions": list(which),
+                    "candidates": n}
         elif kind == "context":
             ed_context_limit_case(cv, acc)
     if last:
